@@ -14,7 +14,7 @@ import warnings
 from ..common import run_configs, finish, is_refusal, describe_exc, Watchdog
 
 PID = "C19"
-WATCHDOG_S = 20
+WATCHDOG_S = 90      # the slowest accepted trial takes < 3 s on this machine; per elaboration step, not per trial
 FEATS = ("err", "rty", "stall", "lock", "cti", "bte")
 
 
@@ -85,7 +85,7 @@ def make(kind, p):
         for i in range(p[0]):
             em.add(event.Source(trigger=p[1], path=(f"s{i}",)))
         x = event.Monitor(em, trigger=p[1])
-        return x, []
+        return x, [x]
     if kind == "wbcsr":
         cdw, wdw, caw, name = p
         mm = MemoryMap(addr_width=caw, data_width=cdw)
@@ -95,7 +95,8 @@ def make(kind, p):
         m = Module()
         m.submodules.mux = mux
         m.submodules.br = x
-        return m, [x.wb_bus]
+        m._vf_port_components = [x]
+        return m, [x.wb_bus, mux.bus]
     if kind == "sram":
         size, dw, g, wr, init = p
         x = WishboneSRAM(size=size, data_width=dw, granularity=g, writable=wr, init=init)
@@ -109,7 +110,7 @@ def make(kind, p):
         x = wishbone.Arbiter(addr_width=aw, data_width=dw, granularity=ag, features=af)
         for i in range(N):
             x.add(wishbone.Interface(addr_width=aw, data_width=dw, granularity=ig, features=iff, path=(f"i{i}",)))
-        return x, []
+        return x, [x]
     if kind == "wbdec":
         daw, ddw, dg, df, subs, sf = p
 
@@ -138,14 +139,29 @@ def make(kind, p):
         f1, f2 = csr.Field(getattr(action, a1), sh[s1]), csr.Field(getattr(action, a2), sh[s2])
         fields = {"a": f1, "b": f2} if form == "dict" else [f1, f2] if form == "list" else {"x": [f1, {"y": f2}]}
         x = csr.Register(fields, access=racc)
-        return x, []
+        return x, [x]
     if kind == "action":
         a, s, init = p
         sh = _shapes()
         cls = getattr(action, a)
         x = cls(sh[s], init=init) if (a in ("RW", "RW1C", "RW1S") and init is not None) else cls(sh[s])
-        return x, []
+        return x, [x]
     raise KeyError(kind)
+
+
+def ports_of(x):
+    """Top-level ports for elaboration: the signals of the component's own signature (with no ports at all
+    every input would be a constant and e.g. two swapped inputs could not show in the netlist)."""
+    from amaranth.lib import wiring
+    from amaranth.hdl import Value
+    comps = [x] if isinstance(x, wiring.Component) else getattr(x, "_vf_port_components", [])
+    ports = []
+    for c in comps:
+        for path, member, sig in c.signature.flatten(c):
+            v = Value.cast(sig)
+            if len(v):
+                ports.append(v)
+    return ports
 
 
 def snapshot(objs):
@@ -154,6 +170,8 @@ def snapshot(objs):
         try:
             mm = o.memory_map
         except AttributeError:
+            mm = None
+        except Exception:
             mm = None
         if mm is not None:
             out.append([(tuple(map(tuple, i.path)), i.start, i.end, i.width) for i in mm.all_resources()])
@@ -174,9 +192,10 @@ def trial(cfg, tier, seed):
         return dict(violation=dict(kind="c19", stage=stage, err=dict(stage=stage, **d),
                                    signature=dict(kind=stage, component=kind, type=d["type"])))
     try:
-        with Watchdog(WATCHDOG_S):
+        if True:
             try:
-                x, objs = make(kind, p)
+                with Watchdog(WATCHDOG_S):
+                    x, objs = make(kind, p)
             except Watchdog.Timeout as e:
                 return viol("construct_timeout", e)
             except BaseException as e:
@@ -187,7 +206,8 @@ def trial(cfg, tier, seed):
             nls = []
             for n in range(3):
                 try:
-                    nl = build_netlist(Fragment.get(x, None), ports=[])
+                    with Watchdog(WATCHDOG_S):
+                        nl = build_netlist(Fragment.get(x, None), ports=ports_of(x))
                     # canonical text: the cells plus the name -> nets table (what the RTLIL back end would print)
                     nls.append(repr(nl) + "\n" + "\n".join(sorted(f"{sig.name} {val!r}" for sig, val in nl.signals.items())))
                 except Watchdog.Timeout as e:
@@ -224,6 +244,9 @@ def configs(tier):
             for a in regopts[::(11 if quick else 7)]:
                 for b in regopts[::(7 if quick else 5)]:
                     T.append(("mux", ((a, b), 3, 2, al, so)))
+    for so in (-1, "x", 1.5, 3, 7, True):
+        for a, b in ((regopts[0], regopts[20]), (regopts[37], regopts[5])):
+            T.append(("mux", ((a, b), 3, 2, 0, so)))
     for sc in itertools.product([(), ("c",), (0,), ("c", 1), (2, "d")], repeat=2):
         T.append(("bridge", sc))
     for k in range(0, 6):
